@@ -34,8 +34,8 @@ Grammar added to T14's (see its docstring for the rest):
            | <name> = "<string literal>"
            | assert <cond>                                 PyAssertionError
            | break | continue                              inside `while`
-           | while <cond>: <stmts>                         <cond>: comparisons of ints (operands may index lists:
-                                                           IndexError) joined by and / or
+           | while <cond>: <stmts>                         <cond>: one comparison of ints whose operands may index
+                                                           lists (IndexError), or pure comparisons joined by and / or
            | if isinstance(<basis param>, str): ...        a match that narrows the parameter (str / enum member)
   <expr> ::= (e1, ..., ek) tuples of ints / labels, t[<k>] on a tuple, l[a:b:-1], [] (element type inferred from the
              first append / add), [e for ...] with an element that may raise (mapP), a ** b with a literal base and
